@@ -40,8 +40,26 @@ _OVERLAP = {
         {"op": "return", "e": {"var": "x0"}}]],
     "params": {"kinds": {}},
 }
+# a synchronous call made by a task whose callee is killed by a context's resume() when the nested loop resumes it after its
+# flush; the caller catches the error, looks at the active task, then enters a context of its own and is suspended inside it
+_CALLEE_RESUME_FAILS = {
+    "roots": [[
+        {"op": "let", "h": "h1", "f": {"task": [
+            {"op": "with", "c": {"async": [1, {"resume": [1, 33]}]}, "body": [
+                {"op": "yield", "x": "a1", "s": {"new": {"item": [0, 1, {"set": 1}]}}}]}, {"op": "return", "e": 0}]}},
+        {"op": "try", "body": [{"op": "sync", "x": "x1", "h": "h1"}], "x": "e1", "handler": [{"op": "probe"}]},
+        {"op": "probe"},
+        {"op": "with", "c": {"async": [2, None]}, "body": [
+            {"op": "yield", "x": "x2", "s": {"tuple": [
+                {"new": {"item": [0, 2, {"set": 2}]}},
+                {"new": {"task": [{"op": "yield", "x": "b1", "s": {"new": {"item": [1, 3, {"set": 3}]}}}, {"op": "return", "e": {"var": "b1"}}]}}]}},
+            {"op": "probe"}]},
+        {"op": "return", "e": 1}],
+        [{"op": "probe"}, {"op": "return", "e": 2}]],
+    "params": {"kinds": {}},
+}
 _EXTRA = [(1, dict(name="overlap", p_ctx_fault=0, p_nonasync=0.0, p_manual_ctx=0.35, p_with=0.15, p_item=0.6, budget=18, max_depth=4))]
 
 mach.install(globals(), "C06", ("EvResume", "EvPause", "EvStep", "EvBefore"), ("C06:",), PROFILES, n_quick=300,
-             n_thorough=25000, nontrivial=_nontrivial, level="proof", corpus=[_OVERLAP],
+             n_thorough=25000, nontrivial=_nontrivial, level="proof", corpus=[_OVERLAP, _CALLEE_RESUME_FAILS],
              extra_gen=mach.extra_profiles(_EXTRA, 45, 3000))
